@@ -5,3 +5,4 @@ import Sessions.Password.All
 import Sessions.Drf.Main
 import Sessions.Codec.GobProgram
 import Sessions.Spike.Hist
+import Sessions.Proofs.Inv.All
